@@ -37,6 +37,7 @@ type Scenario struct {
 	RecvMax     uint16 // 0 = absent (v5) / not applicable (v3)
 	MaxInflight uint16
 	Redis       bool
+	IE          bool   `json:",omitempty"` // mqtt.inflight_expiry at its default (30 s) instead of 0: replays rewrite the stored deadline
 	QoS         []byte // QoS of each published message
 	Plans       []AckPlan
 	Cuts        []Cut
@@ -48,6 +49,7 @@ func Generate(rng *rand.Rand, maxMsgs int) Scenario {
 	if sc.V == 5 {
 		sc.RecvMax = []uint16{0, 1, 2, 3, 10, 65535}[rng.Intn(6)]
 	}
+	sc.IE = rng.Intn(2) == 0
 	n := 3 + rng.Intn(maxMsgs-2)
 	for i := 0; i < n; i++ {
 		sc.QoS = append(sc.QoS, byte(1+rng.Intn(2)))
@@ -518,6 +520,9 @@ func RunScenario(sc *Scenario) (fs []finding, obs map[string]int, err error) {
 		c.MQTT.MaxQueuedMsg = 1000
 		c.MQTT.MessageExpiry = 0
 		c.MQTT.InflightExpiry = 0
+		if sc.IE {
+			c.MQTT.InflightExpiry = 30 * time.Second // far beyond the length of a scenario; the queue (1000) never fills
+		}
 		if sc.Redis && RedisCfg != nil {
 			if cl, e := RedisCfg(c); e == nil {
 				cleanup = cl
